@@ -154,7 +154,9 @@ XLATE = {"keep": ("keep", "true"), "no_retiming": ("dont_touch", "true"), "async
 ATTRS = ["a", "b", "x", "x_1", "x1", "a_b", "sink", "data", "reg", "wire", "repeat", "union", "uwire", "state",
          "mem", "mem_1", "always", "x0", "b_1", "storage", "x_2",
          # names the memory generator gives its own address / data registers (<memory>_adr<port>, <memory>_dat<port>)
-         "mem_adr0", "mem_dat0", "mem_1_adr0", "storage_dat0"]
+         "mem_adr0", "mem_dat0", "mem_1_adr0", "storage_dat0",
+         # names the clock domains give their own signals
+         "sys_clk", "sys_rst", "por_clk", "sys_clk_1"]
 
 
 def st_modules(tier):
@@ -294,7 +296,12 @@ def _convert(case, pre):
                 self.comb += self.a.eq(self.x)
         Unrelated()
     top = g["M0"]()
-    out = convert(top, ios={top.i, top.o, top.cd_sys.clk, top.cd_sys.rst}, name="top", attr_translate=XLATE)
+    ios = {top.i, top.o, top.cd_sys.clk, top.cd_sys.rst}
+    for an in ("sys_clk", "sys_rst", "por_clk", "sys_clk_1"):
+        # user signals of the top level that are called like clock-domain signals are ports as well (ports are named first)
+        if isinstance(getattr(top, an, None), Signal):
+            ios.add(getattr(top, an))
+    out = convert(top, ios=ios, name="top", attr_translate=XLATE)
     return out
 
 
@@ -348,6 +355,17 @@ def run_modules(case):
         if n in nm and nm[n] is not sig:
             return bad("injective-ns", "two signals named %r" % n, key="ns-collision", cls=cls)
         nm[n] = sig
+    # the clock of every always block is the identifier the namespace gives to a clock-domain clock (and to nothing else)
+    clk_ids = {}
+    for cd in getattr(ns, "clock_domains", []):
+        try:
+            clk_ids[ns.get_name(cd.clk)] = cd.clk
+        except Exception:
+            pass
+    for cn in re.findall(r"always @\(posedge (\w+)\)", t1):
+        if cn not in clk_ids:
+            return bad("clock-name", "an always block is clocked by %r, which is not the name of any clock domain's clock (%r)" % (cn, sorted(clk_ids)),
+                       key="clock-name", cls=cls)
     # reproducibility 1: a second run of the same script (same DUID sequence, as in a new process)
     from vlib import env
     env.reset_case_state()
